@@ -241,6 +241,14 @@ def Merger.size (m : Merger) : Nat :=
 def Merger.readAll (H : Heap) (m : Merger) : List (Nat × Rec) × Option Term :=
   drain H (m.size + 1) m
 
+/-- the merger after calling `Read` until it returned an error, at most `n` times -/
+def Merger.advance (H : Heap) : Nat → Merger → Merger
+  | 0, m => m
+  | n + 1, m =>
+    match m.read H with
+    | (.got _ _, m') => m'.advance H n
+    | (.fin _, m') => m'
+
 /-! ### an executable heap (used by the driver and the non-vacuity examples) -/
 
 /-- a minimal element (the left-most one) and the other elements -/
